@@ -5,6 +5,7 @@ import (
 	"fmt"
 	"iter"
 	"maps"
+	"reflect"
 	"slices"
 
 	"gopkg.in/yaml.v3"
@@ -327,6 +328,32 @@ func cloneTree(v any) any {
 	default:
 		return v
 	}
+}
+
+// containsMap reports whether the map target itself (by identity, not by
+// value) is v or lies somewhere inside v.
+func containsMap(v any, target map[string]any) bool {
+	switch v2 := v.(type) {
+	case map[string]any:
+		if reflect.ValueOf(v2).Pointer() == reflect.ValueOf(target).Pointer() {
+			return true
+		}
+
+		for _, v3 := range v2 {
+			if containsMap(v3, target) {
+				return true
+			}
+		}
+
+	case []any:
+		for _, v3 := range v2 {
+			if containsMap(v3, target) {
+				return true
+			}
+		}
+	}
+
+	return false
 }
 
 func deepClone(v any) (any, error) {
